@@ -29,15 +29,15 @@ def S(*names):
     return "{" + ", ".join('"%s"' % n for n in names) + "}"
 
 
-def inst(name, conns, rc1, rc2, msgset, psmaxprotos=4096):
+def inst(name, conns, rc1, rc2, msgset, psmaxprotos=4096, pushstall=("start", "mid")):
     return name, {"Conns": S(*conns), "RC1": '"%s"' % rc1, "RC2": '"%s"' % rc2, "MsgSet": '"%s"' % msgset,
-                  "PsMaxProtos": psmaxprotos}
+                  "PsMaxProtos": psmaxprotos, "PushStallPoints": S(*pushstall)}
 
 
 def replay_instances(ctx):
     out = [
         # two connections, address/record classes: lifetimes, both atomic sections in every order
-        inst("addr2", ("c1", "c2"), "pub", "priv", "addr"),
+        inst("addr2", ("c1", "c2"), "pub", "priv", "addr", pushstall=("mid",)),
         # one connection, every message field class (foreign keys, records, suffixes, > cap)
         inst("all1", ("c1",), "priv", "priv", "all"),
         # default peerstore protocol maximum (128 < identify's 1024), loopback remote (no address filter)
@@ -107,6 +107,8 @@ def _edge_stats(g):
             st["rec_" + m["rec"]] += 1
             st["key_" + m["key"]] += 1
             st["la_" + m["la"]] += 1
+            if m["rec"] == "validR":
+                st["ra_" + m["ra"]] += 1
             st["pr_" + m["pr"]] += 1
             if t["R"][1] == "some":
                 st["consume_peerstore_cap"] += 1
@@ -126,6 +128,12 @@ def _edge_stats(g):
             st["wait_" + ("closed" if op["closed"] else "open")] += 1
         if n in ("fail", "pushfail"):
             st[n + "_" + op["why"]] += 1
+        if n in ("timeout", "pushstall"):
+            st[n + "_" + op["at"]] += 1
+            if op["cs"]:
+                st[n + "_ends_identify_in_flight"] += 1
+            if n == "timeout" and any(_s["c"][c][0] != "open" for c in op["cs"]):
+                st["timeout_on_closed_connection"] += 1
     return dict(st)
 
 
@@ -357,6 +365,10 @@ def run(ctx):
     need += ["rec_" + k for k in ("absent", "validR", "byF", "forged", "pidF", "othertype", "domain", "type", "garbage", "badsig")]
     need += ["fail_" + k for k in ("reset", "na", "oversize", "toomany", "garbage")]
     need += ["pushfail_" + k for k in ("reset", "oversize", "toomany", "garbage")]
+    need += ["timeout_" + k for k in ("neg0", "neg1", "neg2", "mid")] + ["pushstall_start", "pushstall_mid",
+                                                                           "pushstall_ends_identify_in_flight"]
+    need += ["la_" + k for k in ("suf1", "self1", "sufU", "dups", "bigd")]
+    need += ["ra_" + k for k in ("fsuf", "suf1", "sufU", "dups", "bigd", "big")]
     for k in need:
         if not tot.get(k):
             raise MachineryError("vacuity guard: no replayed transition of kind %s" % k)
